@@ -88,12 +88,13 @@ type c15Case struct {
 	Pretty     bool   `json:"pretty"`
 	Accept     string `json:"accept"`
 	Coding     string `json:"coding"` // "" or gzip: a CompressingResponseWriter underneath
+	MW         string `json:"middleware,omitempty"` // "", pass, wrap: an http middleware filter between the observing filter and the handler
 	FailFrom   int    `json:"fail_from_write"`
 	FailAccept int    `json:"failing_write_accepts"`
 }
 
 func (c c15Case) String() string {
-	return fmt.Sprintf("first=%s(%d,%s,errnil=%v) then %d raw writes pretty=%v accept=%s coding=%q fail from write %d accepting %d", c.First, c.Status, c.Value, c.ErrNil, c.Writes, c.Pretty, c.Accept, c.Coding, c.FailFrom, c.FailAccept)
+	return fmt.Sprintf("first=%s(%d,%s,errnil=%v) then %d raw writes pretty=%v accept=%s coding=%q middleware=%q fail from write %d accepting %d", c.First, c.Status, c.Value, c.ErrNil, c.Writes, c.Pretty, c.Accept, c.Coding, c.MW, c.FailFrom, c.FailAccept)
 }
 
 type c15Obs struct {
@@ -113,6 +114,7 @@ func c15Run(cs c15Case) (obs c15Obs, cw *countingWriter, panicked interface{}) {
 		chain.ProcessFilter(req, resp)
 		obs.StatusCode, obs.ContentLength = resp.StatusCode(), resp.ContentLength()
 	})
+	c15Middleware(c, cs.MW)
 	ws := new(restful.WebService).Path("/b").Produces(restful.MIME_JSON, restful.MIME_XML)
 	note := func(err error, before int) {
 		s := "nil"
@@ -265,6 +267,7 @@ func c15RunOn(cs c15Case, rec *h.Rec) (obs c15Obs, cw *countingWriter, panicked 
 		chain.ProcessFilter(req, resp)
 		obs.StatusCode, obs.ContentLength = resp.StatusCode(), resp.ContentLength()
 	})
+	c15Middleware(c, cs.MW)
 	inner := cs
 	ws := new(restful.WebService).Path("/b").Produces(restful.MIME_JSON, restful.MIME_XML)
 	ws.Route(ws.GET("/r").To(func(req *restful.Request, resp *restful.Response) {
@@ -278,6 +281,24 @@ func c15RunOn(cs c15Case, rec *h.Rec) (obs c15Obs, cw *countingWriter, panicked 
 	}()
 	return
 }
+
+// c15Middleware installs an http middleware (through HttpMiddlewareHandlerToFilter) between the
+// observing filter and the handler: "pass" hands the same writer on, "wrap" a forwarding wrapper.
+func c15Middleware(c *restful.Container, kind string) {
+	if kind == "" {
+		return
+	}
+	c.Filter(restful.HttpMiddlewareHandlerToFilter(func(next http.Handler) http.Handler {
+		return http.HandlerFunc(func(w http.ResponseWriter, r *http.Request) {
+			if kind == "wrap" {
+				w = &wrapWriter{w}
+			}
+			next.ServeHTTP(w, r)
+		})
+	}))
+}
+
+type wrapWriter struct{ http.ResponseWriter }
 
 type forwardWriter struct{ rec *h.Rec }
 
@@ -368,6 +389,13 @@ func c15Cases(tier string) []c15Case {
 					base := f
 					base.Writes, base.Pretty, base.Accept = w, pretty, acc
 					out = append(out, base)
+					for _, mw := range []string{"pass", "wrap"} {
+						m := base
+						m.MW = mw
+						out = append(out, m)
+						m.FailFrom, m.FailAccept = 1, 1
+						out = append(out, m)
+					}
 					coded := base
 					coded.Coding = "gzip"
 					out = append(out, coded)
@@ -418,6 +446,6 @@ func checkC15(run *h.Run) {
 	run.Cov["distinct_nontrivial"] = len(cases)
 	run.Cov["cases_with_an_injected_write_failure"] = nf
 	run.Cov["exhaustive"] = true
-	run.Cov["rule"] = "E1 over call sequences with a fault-position dimension: optional first call from {WriteHeader, WriteEntity, WriteHeaderAndEntity, WriteAsJson, WriteAsXml, WriteHeaderAndJson, WriteHeaderAndXml, WriteJson, WriteError(err|nil), WriteErrorString, WriteServiceError} x status {200,201,404} x value {nil, small, 5 kB} followed by 0-2 (thorough 0-3) raw Writes, x pretty-print x Accept {json, xml}; underneath a counting writer that from its k-th Write (k in {never,1,2,3}) accepts only j bytes (j in {0,1,half}) and fails, or a CompressingResponseWriter (no faults). StatusCode()/ContentLength() are read by a container filter after the handler inside a real dispatch. Every case is non-trivial."
+	run.Cov["rule"] = "E1 over call sequences with a fault-position dimension: optional first call from {WriteHeader, WriteEntity, WriteHeaderAndEntity, WriteAsJson, WriteAsXml, WriteHeaderAndJson, WriteHeaderAndXml, WriteJson, WriteError(err|nil), WriteErrorString, WriteServiceError} x status {200,201,404} x value {nil, small, 5 kB} followed by 0-2 (thorough 0-3) raw Writes, x pretty-print x Accept {json, xml}; optionally an http middleware filter (passing the writer on / wrapping it) between the observing filter and the handler; underneath a counting writer that from its k-th Write (k in {never,1,2,3}) accepts only j bytes (j in {0,1,half}) and fails, or a CompressingResponseWriter (no faults). StatusCode()/ContentLength() are read by a container filter after the handler inside a real dispatch. Every case is non-trivial."
 	run.Assume = []string{"with a content coding in between only the fault-free sequences are explored (the statement's error clause is about the uncoded case)"}
 }
